@@ -787,16 +787,16 @@ def array_fan_stage(rep, tcfg, what, prefix, wrap=False):
                            "MC_Array T=256 growth walks", {"cfg": {"T": 256}}, "ArrayTrace.tla", tcfg, what, num, depth, fan, nhdr=0, wrap=wrap)
 
 
-def map_full_stage(rep, tcfg, what, prefix, wrap=False, limits=(255,), probes=None, scale=1):
+def map_full_stage(rep, tcfg, what, prefix, wrap=False, limits=(255,), probes=None, scale=1, vs_triples="{12, 101}"):
     """Every transition of the COMPOSED map algorithm (MapFull: slab tree x collision groups, layer C) for keys that collide in
     pairs / triples / on every level among keys with digests of their own: groups form, spill, collapse while the slabs that hold
     them split, borrow and merge.  Replayed in edge mode (or persist-wrapped); layer C is compared as drift."""
     quick = rep.tier == "quick"
     plans = [("mixed", 8, 6 if quick else 7, "{12, 101}", 24 if quick else 4)]
     if not quick:
-        plans += [("mixed", 8, 7, "{12, 60, 101}", 16), ("pairs", 6, 6, "{12, 60, 101}", 2), ("triples", 6, 6, "{12, 101}", 2), ("deep", 6, 6, "{12, 101}", 1)]
+        plans += [("mixed", 8, 7, "{12, 60, 101}", 16), ("pairs", 6, 6, "{12, 60, 101}", 2), ("triples", 6, 6, vs_triples, 2), ("deep", 6, 6, "{12, 101}", 1)]
     else:
-        plans += [("triples", 6, 5, "{12, 101}", 12)]
+        plans += [("triples", 6, 5, vs_triples, 12)]
     for lim in limits:
         for (mode, nk, mk, vs, den) in plans:
             if lim != 255 and mode not in ("triples", "pairs"):
@@ -1305,6 +1305,9 @@ def check_C09(rep):
     map_collide_stage(rep, "MapTrace_C09.cfg", "slab leak or dangling reference", "c09", 255, 3, (1, 24) if quick else (1, 2))
     map_walk_stage(rep, "MapTrace_C09.cfg", "slab leak or dangling reference", "c09", 256, 24, "clustered", 5, "{12, 40, 100}", 107, 16 if quick else 300, 120 if quick else 300)
     nested_stages(rep, "c09", "NestedTrace_C09.cfg", "slab leak or dangling reference")
+    # every transition of the composed map algorithm executed on committed slabs, then committed: the registers alone must resolve
+    # (values of 140 bytes live in slabs of their own: a stale register then holds a reference to a released slab)
+    map_full_stage(rep, "MapTrace_C09.cfg", "slab leak or dangling reference in the committed registers", "c09", wrap=True, vs_triples="{101, 140}")
 
 
 def probe_cmd(base, probes, rep):
